@@ -581,6 +581,26 @@ fn matrix_ptr<E: Elem + cgmath::BaseFloat>(d: &mut Draw) -> Outcome {
                     d.configs += 2;
                 }
             }
+            // an index out of range in any of the positions panics (rows as well as columns, in either operand), and
+            // never quietly addresses some other slot
+            for _ in 0..6 {
+                let mut ix = [d.below(N + 2), d.below(N + 2), d.below(N + 2), d.below(N + 2)];
+                if ix.iter().all(|i| *i < N) {
+                    ix[d.below(4)] = N + d.below(2);
+                }
+                let mut w = m;
+                ensure!(panics(move || Matrix::swap_elements(&mut w, (ix[0], ix[1]), (ix[2], ix[3]))), "matrix-swap_elements-out-of-range-accepted",
+                    "{}::swap_elements(({},{}),({},{})) did not panic", stringify!($M), ix[0], ix[1], ix[2], ix[3]);
+                let (a, b) = if ix[0] >= N || ix[2] >= N { (ix[0], ix[2]) } else { (ix[1], ix[3]) };
+                let mut w = m;
+                ensure!(panics(move || w.swap_rows(a, b)), "matrix-swap_rows-out-of-range-accepted", "{}::swap_rows({},{}) did not panic", stringify!($M), a, b);
+                let mut w = m;
+                ensure!(panics(move || w.swap_columns(a, b)), "matrix-swap_columns-out-of-range-accepted", "{}::swap_columns({},{}) did not panic", stringify!($M), a, b);
+                let mut w = m;
+                ensure!(panics(move || w.replace_col(N + (a % 2), w[0])), "matrix-replace_col-out-of-range-accepted", "{}::replace_col({}, ..) did not panic", stringify!($M), N + (a % 2));
+                ensure!(panics(move || m[N][0]) && panics(move || m[0][N]) && panics(move || m.row(N)), "matrix-index-out-of-range-accepted", "{}: m[{}][0], m[0][{}] or row({}) did not panic", stringify!($M), N, N, N);
+                d.configs += 5;
+            }
         }};
     }
     one!(Matrix2, 2);
@@ -697,8 +717,8 @@ pub fn property() -> Property {
     num!(usize, "usize");
     num!(f32, "f32");
     num!(f64, "f64");
-    add!("matrix_ptr-f32", "f32", matrix_ptr::<f32>, 40, 2000, 48, R);
-    add!("matrix_ptr-f64", "f64", matrix_ptr::<f64>, 40, 2000, 48, R);
+    add!("matrix_ptr-f32", "f32", matrix_ptr::<f32>, 40, 2000, 160, R);
+    add!("matrix_ptr-f64", "f64", matrix_ptr::<f64>, 40, 2000, 160, R);
     add!("mint-i32", "i32", mint_conv::<i32>, 100, 5000, 48, R);
     add!("mint-f64", "f64", mint_conv::<f64>, 100, 5000, 48, R);
     add!("mint-char", "char", mint_conv::<char>, 100, 5000, 48, R);
